@@ -152,7 +152,25 @@ def same(a, b):
     return False
 
 
-def resolve_names(spec, vars_, modified_vars=()):
+def _names_mutated_in(body_stmts):
+    """local names whose object the statements mutate syntactically: x.append / add / extend / update / insert / setdefault / pop /
+    discard / remove (...), x[...] = ..., del x[...]"""
+    import ast
+    out = set()
+    for st in body_stmts or ():
+        for x in ast.walk(st):
+            if isinstance(x, ast.Call) and isinstance(x.func, ast.Attribute) and isinstance(x.func.value, ast.Name) and \
+                    x.func.attr in ("append", "add", "extend", "update", "insert", "setdefault", "pop", "discard", "remove"):
+                out.add(x.func.value.id)
+            elif isinstance(x, (ast.Assign, ast.AugAssign, ast.Delete)):
+                tgts = x.targets if isinstance(x, (ast.Assign, ast.Delete)) else [x.target]
+                for t in tgts:
+                    if isinstance(t, ast.Subscript) and isinstance(t.value, ast.Name):
+                        out.add(t.value.id)
+    return out
+
+
+def resolve_names(spec, vars_, modified_vars=(), body_stmts=None):
     """Invariants name loop-carried local variables.  A local may be renamed without any change of behaviour: a name the
     code no longer has is resolved by ROLE - the contract declares the kind of the variable (set / list / dict / array) and
     the name is re-bound when exactly one local of that kind is not already claimed by another declared name."""
@@ -171,6 +189,13 @@ def resolve_names(spec, vars_, modified_vars=()):
             continue
         pool = {n2: v for n2, v in vars_.items() if kd != "carried int" or n2 in modified_vars}
         cands = [n2 for n2, v in pool.items() if n2 not in claimed and n2 not in alias.values() and is_kind.get(kd, lambda v: False)(v)]
+        if len(cands) > 1 and body_stmts:
+            # several locals of that kind (e.g. a list of keys built before the loop and the list the loop appends to): the
+            # loop-carried one is the one the loop body mutates
+            mutated = _names_mutated_in(body_stmts)
+            changed = [n2 for n2 in cands if n2 in mutated]
+            if len(changed) == 1:
+                cands = changed
         if len(cands) == 1:
             alias[nm] = cands[0]
     return alias
@@ -283,7 +308,7 @@ def run_symbolic_loop(it, coll, bind_target, run_body, body_stmts, env, f, ordin
             env.vars[t] = Poison()
         excl = tuple(getattr(spec, "sorts", {}) or ()) if spec is not None else ()
         if spec is not None:
-            _al = resolve_names(spec, entry_vars)
+            _al = resolve_names(spec, entry_vars, (), body_stmts)
             excl = tuple(_al.get(nm, nm) for nm in excl)
         accs = find_accumulators(entry, entry_vars, results, body_stmts, excl)
         modified = detect_modified(ctx, entry, entry_vars, results, accs)
@@ -651,7 +676,7 @@ def stateful_loop(it, coll, k, n, spec, modified, body_once, env, entry, entry_v
         raise Unsupported("print inside a stateful symbolic loop")
     tag = f"{qn}#loop{ordinal}"
 
-    alias = resolve_names(spec, entry_vars, modified["vars"])
+    alias = resolve_names(spec, entry_vars, modified["vars"], body_stmts)
     sorts_by_actual = {alias.get(nm, nm): srt for nm, srt in (getattr(spec, "sorts", None) or {}).items()}
 
     def state(kterm, vars_, heap, store):
